@@ -285,6 +285,11 @@ Proof.
   rewrite H. reflexivity.
 Qed.
 
+(* aw-core events are ms-aligned (the Event.timestamp setter floors); there the
+   constructor's flooring is the identity *)
+Lemma floor_ms_aligned : forall t, t mod 1000 = 0 -> floor_ms t = t.
+Proof. intros t H. unfold floor_ms. symmetry. apply Z.div_exact; [lia | exact H]. Qed.
+
 (* ------------------------------------------------------------------ the loop *)
 
 Definition ckof (keys : list Z) (e : gev) := composite_key keys (gdata e).
